@@ -68,7 +68,7 @@ SK_PARSE_CONSTRAINT = '''def parse_constraint(data, repository_name, lockfile, w
         via.append(sanitize_package_name(pkg))
     url = data[-K21].strip(K22)
     if not url.startswith((K23, K24, K25)):
-        if wheel_dirs and url.startswith(*wheel_dirs):
+        if wheel_dirs and url.startswith(tuple(wheel_dirs)):
             if url.startswith((K26, K27)):
                 url_parents = url.count(K28)
                 repository, _, path = str(lockfile).partition(K29)
@@ -340,9 +340,39 @@ def find_links_mapping() -> None:
         raise TranslateError(f"compile_requirements: build_repo(find_links=...) changed: {kw.get('find_links')!r}")
 
 
+LINK_TEST = "link[0] and urllib.parse.urlsplit(link[0]).scheme"
+LINK_JOINED = "full_link = urllib.parse.urljoin(link[0], link[1])"
+LINK_LOCAL = "full_link = link[1]"
+
+
+def link_rendering() -> None:
+    """cmdline.write_requirements_file: a link whose base has a scheme is joined with urljoin, a
+    local (find-links) link (dir, dir/file) is written as its second component - what
+    model/BzlLockC19.v link_text says.  The former unconditional urljoin is rejected."""
+    mod = T.parse("req_compile/cmdline.py")
+    f = [n for n in mod.body if isinstance(n, ast.FunctionDef) and n.name == "write_requirements_file"]
+    if len(f) != 1:
+        raise TranslateError("cmdline.write_requirements_file not found")
+    assigns = [n for n in ast.walk(f[0]) if isinstance(n, ast.Assign) and len(n.targets) == 1
+               and isinstance(n.targets[0], ast.Name) and n.targets[0].id == "full_link"]
+    ifs = [n for n in ast.walk(f[0]) if isinstance(n, ast.If) and ast.unparse(n.test) == LINK_TEST]
+    if len(ifs) != 1 or len(assigns) != 2:
+        raise TranslateError("write_requirements_file: link rendering is not `if %s: urljoin else: link[1]` (%d assignments of full_link)"
+                             % (LINK_TEST, len(assigns)))
+    body = [ast.unparse(n) for n in ifs[0].body]
+    orelse = [ast.unparse(n) for n in ifs[0].orelse]
+    if body != [LINK_JOINED] or orelse != [LINK_LOCAL]:
+        raise TranslateError(f"write_requirements_file: link rendering changed: {body!r} / {orelse!r}")
+    writes = [n for n in ast.walk(f[0]) if isinstance(n, ast.Call) and isinstance(n.func, ast.Attribute) and n.func.attr == "write"
+              and len(n.args) == 1 and isinstance(n.args[0], ast.Name) and n.args[0].id == "full_link"]
+    if len(writes) != 1:
+        raise TranslateError("write_requirements_file: full_link is not written exactly once")
+
+
 def gen_bzl_consts() -> str:
     explanation_render()
     find_links_mapping()
+    link_rendering()
     pc = _check_skeleton("private/reqs_repo.bzl", "parse_constraint", SK_PARSE_CONSTRAINT, PC_FIXED, 51)
     pl = _check_skeleton("private/reqs_repo.bzl", "parse_lockfile", SK_PARSE_LOCKFILE, PL_FIXED, 17)
     if not isinstance(pc[0], int) or pc[0] < 0 or pc[0] > 50:
